@@ -412,7 +412,7 @@ func c16NonNul(r *core.Rng, n int, cls int) string {
 	return string(b)
 }
 
-var c16Versions = []string{"5.6.51-log", "5.7.44-log", "8.0.36", "10.4.12-MariaDB-log", "5.5.5-10.11.6-MariaDB-1:10.11.6+maria~ubu2204-log", "8.0.28-0ubuntu0.20.04.3-debug-asan-log-xxxxxxxxxxxxx"}
+var c16Versions = []string{"5.6.51-log", "5.7.44-log", "8.0.36", "10.4.12-MariaDB-log", "5.5.68-MariaDB", "5.3.12-MariaDB-log", "5.6.0-m4", "5.1.73-community", "10.0.38-MariaDB", "4.1.22", "9.0.1", "5.5.5-10.11.6-MariaDB-1:10.11.6+maria~ubu2204-log", "8.0.28-0ubuntu0.20.04.3-debug-asan-log-xxxxxxxxxxxxx"}
 
 func c16GenFDE(c *core.Ctx, i int) *c16Case {
 	// i enumerates (entries 27..255) x (alg 0,1,255) x (version length 0..50)
